@@ -3,6 +3,15 @@ import json, os
 VERIF = os.path.dirname(os.path.dirname(os.path.abspath(__file__)))
 PROOF = "proof"
 CHECKS = {
+ "C01": dict(
+    text="Lean 4 theorems: _full_rank_tt's chain decompresses to the array it was built from (any number of modes, any sizes incl. 1; "
+         "mixed-radix loop invariant), decompress_tucker_factors (all / any subset), tt() (whole-tensor CP→TT), clone and transpose (chain "
+         "reversal lemma) never change the represented array; shape/ranks accessors are functions of the same dims the semantics uses. "
+         "Model tied to /repo by bit-exact comparison of the produced cores; orthogonalize/round at default eps checked at dense level.",
+    note="Trusted: Lean kernel + standard axioms; harness/driver glue; sampling correspondence. Outside: IEEE rounding; the "
+         "orthogonalisation and rounding clauses are carried by C13/C04 theorems, here only observed (dense comparison).",
+    tech="Lean 4 proof (loop invariant over flat indices; boundary-replacement and reversal lemmas) + differential correspondence at core level",
+    ref="§3 C01"),
  "C02": dict(
     text="Lean 4 theorems over a branch-faithful model of __add__/__mul__/scalar ops/_broadcast/repeat: the result decompresses to the "
          "element-wise result for every number of modes, size, rank, format mix and commutative ring; any expression tree by induction. "
